@@ -457,15 +457,48 @@ def _b_enumerate(interp, st, args, kw):
     return VList([VTuple([start + i, x]) for i, x in enumerate(seq)])
 
 
+def truth_expr(interp, st, v):
+    """Python truthiness of v as a formula, without branching (numbers, None, optional values, booleans)"""
+    v = interp.resolve(st, v) if not isinstance(v, VOpt) else v
+    if isinstance(v, bool):
+        return z3.BoolVal(v)
+    if v is None:
+        return z3.BoolVal(False)
+    if is_z3(v) and z3.is_bool(v):
+        return v
+    if isinstance(v, VOpt):
+        return z3.And(z3.Not(v.is_none) if is_z3(v.is_none) else z3.BoolVal(not v.is_none), truth_expr(interp, st, v.val))
+    if isinstance(v, Cx):
+        return z3.Or(to_real(v.re) != 0, to_real(v.im) != 0)
+    if is_num(v):
+        return to_real(v) != 0
+    raise Unsupported("truth value of %r inside all()/any() over a symbolic mapping" % type(v).__name__)
+
+
+def _quantified(interp, st, v, universal):
+    """all(e(k) for k in M) / any(...) over a symbolic mapping: a quantified formula over the keys of M"""
+    body = truth_expr(interp, st, v.elt)
+    dom = z3.Select(comp_domain(v), v.k)
+    if universal:
+        return z3.ForAll([v.k], z3.Implies(dom, body))
+    return z3.Exists([v.k], z3.And(dom, body))
+
+
 def _b_all(interp, st, args, kw):
-    for x in interp.iterate_concrete(st, interp.resolve(st, args[0])):
+    v = interp.resolve(st, args[0])
+    if isinstance(v, VComp):
+        return _quantified(interp, st, v, True)
+    for x in interp.iterate_concrete(st, v):
         if not interp.truth(st, x):
             return False
     return True
 
 
 def _b_any(interp, st, args, kw):
-    for x in interp.iterate_concrete(st, interp.resolve(st, args[0])):
+    v = interp.resolve(st, args[0])
+    if isinstance(v, VComp):
+        return _quantified(interp, st, v, False)
+    for x in interp.iterate_concrete(st, v):
         if interp.truth(st, x):
             return True
     return False
@@ -668,6 +701,22 @@ def _b_np_sum(interp, st, args, kw):
     raise Unsupported("np.sum of %r" % type(v).__name__)
 
 
+def _b_np_allany(universal):
+    def fn(interp, st, args, kw):
+        """numpy.all / numpy.any of a 1-D array of numbers (no axis): every / some entry is non-zero (A2)"""
+        v = interp.resolve(st, args[0])
+        if kw or len(args) != 1:
+            raise Unsupported("np.all/np.any with axis or keywords")
+        interp.assumed.add("A2 numpy.all / numpy.any: every / some entry of a 1-D array is non-zero")
+        if isinstance(v, VArrN):
+            parts = [truth_expr(interp, st, x) for x in v.items]
+            return z3.And(parts) if universal else z3.Or(parts)
+        if is_num(v) or isinstance(v, (bool, Cx)) or (is_z3(v) and z3.is_bool(v)):
+            return truth_expr(interp, st, v)
+        raise Unsupported("np.all/np.any of %r" % type(v).__name__)
+    return fn
+
+
 def _b_np_maximum(interp, st, args, kw):
     interp.assumed.add("A2 numpy.maximum: element-wise max")
     return max2(interp, st, interp.resolve(st, args[0]), interp.resolve(st, args[1]))
@@ -787,6 +836,7 @@ def _np_namespace():
         "radians": VBuiltin("np.radians", _b_radians), "cos": VBuiltin("np.cos", _b_cos_generic),
         "interp": VBuiltin("np.interp", _b_np_interp), "sum": VBuiltin("np.sum", _b_np_sum),
         "isclose": VBuiltin("np.isclose", _b_np_isclose),
+        "all": VBuiltin("np.all", _b_np_allany(True)), "any": VBuiltin("np.any", _b_np_allany(False)),
         "asarray": VBuiltin("np.asarray", _b_identity),
     }
     return ns
@@ -812,6 +862,8 @@ def library(base, attr):
             "radians": _b_radians, "cos": _b_cos_generic, "isnan": _b_isnan,
             "maximum": _b_np_maximum, "interp": _b_np_interp, "sum": _b_np_sum,
         }
+        if base != "math":
+            table.update({"all": _b_np_allany(True), "any": _b_np_allany(False)})
         if attr == "inf":
             return INF
         if attr == "nan":
